@@ -378,6 +378,87 @@ def e2e_worker(job, acc: Acc):
                                 what=f"after {seq!r}, didClose (nothing saved) and didOpen the server still holds the edited text"))
 
 
+# ------------------------------------------------- end-to-end (didOpen text)
+OPEN_DOCS = [E2E_DOC, E2E_DOC.replace("\n", "\r\n"), E2E_DOC.rstrip("\n"), "", "\n", "program p\n\tinteger :: v\n\tv = 1\nend program p\n"]
+OPEN_MODES = ["text_equals_disk", "no_file_on_disk", "disk_differs", "second_open_other_text"]
+
+
+def open_worker(job, acc: Acc):
+    """The initial document is what didOpen carries (LSP: from then on the truth is the client's buffer), whether or not
+    a file of that name exists on disk and whatever it contains; then one change; then, with whole-document sync, a
+    notification carrying two whole-document changes (the last one is the document)."""
+    mode, incremental, di, change = job
+    doc = OPEN_DOCS[di]
+    sc = core_scratch()
+    sc.wipe()
+    path = os.path.join(sc.path, "d.f90")
+    if mode == "text_equals_disk":
+        with open(path, "w", newline="") as f:
+            f.write(doc)
+    elif mode in ("disk_differs", "second_open_other_text"):
+        with open(path, "w", newline="") as f:
+            f.write("module other\ninteger :: zz\nend module other\n")
+    s = server_on(sc.path, ["--incremental_sync"] if incremental else [])
+    if mode == "second_open_other_text":
+        s.open(path)
+        s.close(path)
+    s.open(path, doc)
+    fam = "e2e_didopen"
+    case = {"doc": doc, "mode": mode, "incremental": incremental, "change": change, "seam": "textDocument/didOpen"}
+    tags = {"family": fam, "mode": mode, "ranged": bool(incremental), "ins_ends_with_break": False, "seam_crlf": False, "non_bmp": False}
+    acc.case(nontrivial_key=(mode, incremental, di, repr(change)), outcome=(mode, di))
+    acc.count("transitions", 1)
+
+    def held():
+        fobj = s.srv.workspace.get(path)
+        return list(fobj.contents_split) if fobj is not None else None
+
+    text = doc
+    if held() != refdoc.split_lines(text):
+        acc.violation(Violation(fam, {**tags, "obs": "text_after_didopen"}, case, refdoc.split_lines(text), held(),
+                                what=f"{mode}: after didOpen with text {doc[:30]!r}.. the server holds {str(held())[:60]}"))
+        return
+    if change is not None:
+        lines = refdoc.split_lines(text)
+        (l0, c0), (l1, c1) = change["at"]
+        if l1 >= len(lines) or c0 > len(lines[l0]) or c1 > len(lines[l1]):
+            return
+        ch = _mk_change(change["at"], change["text"])
+        text = refdoc.apply(text, ch)
+        s.change(path, [ch] if incremental else [{"text": text}])
+        acc.count("transitions", 1)
+        if held() != refdoc.split_lines(text):
+            acc.violation(Violation(fam, {**tags, "obs": "text_after_change"}, case, refdoc.split_lines(text), held(),
+                                    what=f"{mode}: didOpen with text, then {ch!r}: server holds {str(held())[:80]}"))
+            return
+    du = _find_decl_use(text.replace("\r\n", "\n"))
+    if du is not None:
+        (dl, dc), (ul, uc) = du
+        r = s.result("textDocument/definition", Server.tdpp(path, ul, uc))
+        acc.count("definition_checked")
+        if not (isinstance(r, dict) and r.get("range", {}).get("start") == {"line": dl, "character": dc}):
+            acc.violation(Violation(fam, {**tags, "obs": "definition_coordinates"}, case, {"line": dl, "character": dc}, r,
+                                    what=f"{mode}: definition of v after didOpen with text"))
+    if not incremental:
+        # one notification, two whole-document changes: the document is the last one
+        t1, t2 = text + "! first\n", text + "! second\n! last\n"
+        s.change(path, [{"text": t1}, {"text": t2}])
+        acc.count("transitions", 2)
+        if held() != refdoc.split_lines(t2):
+            acc.violation(Violation(fam, {**tags, "obs": "several_whole_document_changes"}, case, refdoc.split_lines(t2), held(),
+                                    what="a didChange with two whole-document changes: the server does not hold the last one"))
+
+
+def open_jobs():
+    changes = [None, {"at": ((0, 0), (0, 0)), "text": "! c\n"}, {"at": ((1, 0), (1, 0)), "text": " "}, {"at": ((0, 2), (1, 1)), "text": "x\ny"},
+               {"at": ((0, 0), (0, 0)), "text": "x"}]
+    for mode in OPEN_MODES:
+        for inc in (True, False):
+            for di in range(len(OPEN_DOCS)):
+                for ch in changes:
+                    yield (mode, inc, di, ch)
+
+
 def core_scratch():
     from ..driver import worker_scratch
 
@@ -417,7 +498,7 @@ def main(ctx):
                 "changes; executed on the real FortranFile.apply_change and (second family) through real didChange "
                 "notifications.  Non-trivial = the change alters the text; distinct = distinct (state, change).")
     ctx.assumptions = [
-        "the file on disk equals the text the client sent in didOpen (fortls reads didOpen content from disk)",
+        "families other than e2e_didopen: the file on disk equals the text the client sent in didOpen",
         "ranges lie inside the current document (the statement's precondition)",
         "position characters count UTF-16 code units (LSP default)",
     ]
@@ -434,8 +515,12 @@ def main(ctx):
     jobs = list(e2e_jobs(depth2=True))
     e2e = core.pmap(e2e_worker, jobs, chunk=16, budget_s=60, label="C02/e2e")
     ctx.add_family("e2e_didchange", e2e)
+    oacc = core.pmap(open_worker, list(open_jobs()), chunk=8, budget_s=60, label="C02/open")
+    ctx.add_family("e2e_didopen", oacc, what="the document as carried by didOpen x {same text on disk, no file on disk, another text on disk, opened "
+                   "and closed before with the disk text} x 6 documents (LF, CRLF, no final break, empty, tabs) x ranged / whole-document sync x "
+                   "one change; with whole-document sync a notification carrying two whole-document changes")
     ctx.states = states
-    ctx.transitions = trans + e2e.counters.get("transitions", 0) + hacc.counters.get("transitions", 0)
+    ctx.transitions = trans + e2e.counters.get("transitions", 0) + hacc.counters.get("transitions", 0) + oacc.counters.get("transitions", 0)
     # every transition above *is* an execution of the implementation
     ctx.traces_validated = ctx.transitions
     ctx.coverage_extra["note"] = ("the model (refdoc) is stepped in lock-step with the implementation on every "
@@ -450,6 +535,10 @@ def replay(rec):
         seq = case["changes"]
         e2e_worker((case["incremental"], case["per_msg"], seq[0], seq[1] if len(seq) > 1 else None), acc)
         return [v.to_json("C02") for v in acc.violations]
+    if case.get("seam") == "textDocument/didOpen":
+        acc = Acc()
+        open_worker((case["mode"], case["incremental"], OPEN_DOCS.index(case["doc"]), case["change"]), acc)
+        return [v.to_json("C02") for v in acc.violations] or None
     if case.get("seam") == "history":
         acc = Acc()
         history_case(tuple(case["history"]), acc)
